@@ -89,6 +89,16 @@ class FuncKinds:
                 self.axis[(nm, k)].append(Belief(d, f.node, f"role {r}"))
             if ek:
                 self.elem[nm].append(Belief(ek, f.node, f"role {r}"))
+        # helpers outside the solve call graph (skglm.utils.data): the group structure and
+        # the design are recognised by their interface names
+        if f.module.name == "skglm.utils.data":
+            for nm, r in (("grp_ptr", "GRP_PTR"), ("grp_indices", "GRP_IDX"), ("X", "X"), ("y", "Y")):
+                if nm in params and not self.axis.get((nm, 0)):
+                    doms, ek = ROLE_DOMS[r]
+                    for k, d in enumerate(doms):
+                        self.axis[(nm, k)].append(Belief(d, f.node, f"interface name {nm}"))
+                    if ek:
+                        self.elem[nm].append(Belief(ek, f.node, f"interface name {nm}"))
         for nm, (doms, ek) in self.param_seed.items():
             for k, d in enumerate(doms or ()):
                 if d:
@@ -125,7 +135,7 @@ class FuncKinds:
             return e.id
         if isinstance(e, ast.Attribute):
             ch = attr_chain(e)
-            if ch and len(ch) == 2:
+            if ch and len(ch) == 2 and ch[1] not in ("T", "shape", "dtype", "size", "ndim"):
                 return f"{ch[0]}.{ch[1]}"
         return None
 
@@ -163,13 +173,20 @@ class FuncKinds:
         if isinstance(v, ast.Attribute) and v.attr == "T":
             t = self.type_of(v.value)
             return (t[0][::-1], t[1]) if t else None
+        if isinstance(v, ast.Constant):
+            return ([], None)
+        if isinstance(v, ast.BinOp) and isinstance(v.op, ast.MatMult):
+            a, b = self.type_of(v.left), self.type_of(v.right)
+            if a is None or b is None or not a[0] or not b[0]:
+                return None
+            return (list(a[0][:-1]) + list(b[0][1:]), None)
         if isinstance(v, ast.BinOp):
-            # elementwise arithmetic keeps the shape of its array operand
-            for side in (v.left, v.right):
-                t = self.type_of(side)
-                if t and t[0]:
-                    return (t[0], None)
-            return None
+            # elementwise arithmetic keeps the shape of its array operand; an operand of
+            # unknown type makes the result unknown
+            a, b = self.type_of(v.left), self.type_of(v.right)
+            if a is None or b is None:
+                return None
+            return (a[0] if len(a[0]) >= len(b[0]) else b[0], None)
         if isinstance(v, ast.Call) and isinstance(v.func, ast.Attribute) and v.func.attr in ("sum", "mean", "max", "min"):
             t = self.type_of(v.func.value)
             ax = next((k.value for k in v.keywords if k.arg == "axis"), v.args[0] if v.args else None)
@@ -328,6 +345,12 @@ class FuncKinds:
                 parts = st.slice.elts if isinstance(st.slice, ast.Tuple) else [st.slice]
                 for k, p in enumerate(parts):
                     if isinstance(p, ast.Slice):
+                        for bnd in (p.lower, p.upper):
+                            if isinstance(bnd, ast.Subscript):
+                                bk = self.kind_of(bnd)
+                                ad0 = self.dom_of_axis(nm, k)
+                                if bk and ad0 and bk != ad0:
+                                    self.conflict(st, nm, k, ad0, bk, bnd)
                         continue
                     if isinstance(p, ast.Constant):
                         continue
